@@ -67,6 +67,11 @@ type ExecutionContext struct {
 	template   *Template
 	macroDepth int
 
+	// executing is the template Execute was called on (template is the root of
+	// its inheritance chain); its Options decide about TrimBlocks/LStripBlocks
+	// for its own text.
+	executing *Template
+
 	// tagState holds what tags have to remember during ONE rendering (e. g. the
 	// position of a cycle tag). It is shared by all contexts derived from the
 	// one the rendering started with; the compiled template itself stays untouched.
@@ -120,6 +125,7 @@ func NewChildExecutionContext(parent *ExecutionContext) *ExecutionContext {
 		Private:    make(Context),
 		Autoescape: parent.Autoescape,
 		tagState:   parent.tagState,
+		executing:  parent.executing,
 	}
 	newctx.Shared = parent.Shared
 
